@@ -2,4 +2,14 @@
 
 package server
 
+import "github.com/oxia-db/oxia/proto"
+
 func verifEmit(any, string, ...any) {}
+
+// verifChunkTerm is the term a snapshot stream was sent in (-1: the stream carried no chunk)
+func verifChunkTerm(c *proto.SnapshotChunk) int64 {
+	if c == nil {
+		return -1
+	}
+	return c.Term
+}
